@@ -34,7 +34,7 @@ PROPS = {
     "C08": {
         "lean": ["Stackage.Props.C08", "Stackage.Props.C08b"],
         "streams": [{"name": "equnit", "quick": 1500, "thorough": 30000}, {"name": "histx", "quick": 3000, "thorough": 60000}, {"name": "awk", "quick": 2000, "thorough": 40000},
-                    {"name": "revealtrees", "quick": 1500, "thorough": 30000}],
+                    {"name": "revealtrees", "quick": 1500, "thorough": 30000}, {"name": "paths", "quick": 1500, "thorough": 30000}],
         "rule": "histories of the content mutators whose int arguments are drawn from {MinInt, MinInt+1, -Len-1..Len+1, MaxInt} on stacks of "
                 "length 0..4, all four index-option combinations, every kind; after each call Len/Index*/Front/Back/Cap/Avail are re-read; "
                 "non-trivial = at least 3 operations of at least 2 kinds; stream awk: Push / Insert / Replace / IsEqual / Transfer / ConvertStack / "
@@ -416,6 +416,9 @@ def projection(pid, stream):
     if pid == "C07" and stream == "freepol":
         # Traverse(i) is Index(i) also when asked from inside the stack's own PushPolicy (the lock is held then)
         return lambda s: ("t" + s.split(" ")[0].split("t")[-1]) if s.startswith("free=z") else "-"
+    if pid == "C08" and stream == "paths":
+        # Traverse with any int as index, through whatever the tree holds: the value and the flag, as they are
+        return lambda s: s
     if pid == "C08" and stream == "revealtrees":
         # Reveal returns normally (forward / negative index options, nested shapes of every kind included); what it does is C20's business
         return lambda s: "PANIC" if ("PANIC" in s or "TIMEOUT" in s) else "returned"
